@@ -432,3 +432,283 @@ func (fn *FuncNode) usesObj(n ast.Node, o types.Object) bool {
 	})
 	return found
 }
+
+// withLocalCallees returns fn followed by the functions of the same package that fn calls statically (transitively, up to
+// `depth` calls away): an extracted helper is analysed together with the function it was extracted from.
+func (p *Prog) withLocalCallees(fn *FuncNode, depth int) []*FuncNode {
+	out := []*FuncNode{fn}
+	seen := map[*FuncNode]bool{fn: true}
+	frontier := []*FuncNode{fn}
+	for d := 0; d < depth && len(frontier) > 0; d++ {
+		var next []*FuncNode
+		for _, f := range frontier {
+			if f.Body == nil {
+				continue
+			}
+			ast.Inspect(f.Body, func(n ast.Node) bool {
+				c, ok := n.(*ast.CallExpr)
+				if !ok {
+					return true
+				}
+				enc := p.enclosing(f.Pkg, c.Pos())
+				if enc == nil {
+					return true
+				}
+				if callee := enc.Callee(c); callee != nil && callee.Pkg() == fn.Pkg.Types {
+					if g := p.ByObj[callee]; g != nil && !seen[g] {
+						seen[g] = true
+						out = append(out, g)
+						next = append(next, g)
+					}
+				}
+				return true
+			})
+		}
+		frontier = next
+	}
+	return out
+}
+
+// loopEarlyExits lists the statements inside a loop body that leave the loop (or skip the rest of the iteration when they
+// come before `before`): return, goto, a break that targets this loop (unlabelled breaks of nested for/switch/select do
+// not), labelled break/continue, and a continue located before `before`. Function literals are not entered.
+func loopEarlyExits(body *ast.BlockStmt, before token.Pos) []ast.Stmt {
+	var out []ast.Stmt
+	var walk func(n ast.Node, breakable bool)
+	walk = func(n ast.Node, breakable bool) {
+		if n == nil {
+			return
+		}
+		switch s := n.(type) {
+		case *ast.FuncLit:
+			return
+		case *ast.ReturnStmt:
+			out = append(out, s)
+			return
+		case *ast.BranchStmt:
+			switch s.Tok {
+			case token.GOTO:
+				out = append(out, s)
+			case token.BREAK:
+				if s.Label != nil || breakable {
+					out = append(out, s)
+				}
+			case token.CONTINUE:
+				if s.Label != nil || (before.IsValid() && s.Pos() < before) {
+					out = append(out, s)
+				}
+			}
+			return
+		case *ast.ForStmt:
+			walkNested(s.Body, &out, before)
+			return
+		case *ast.RangeStmt:
+			walkNested(s.Body, &out, before)
+			return
+		case *ast.SwitchStmt, *ast.TypeSwitchStmt, *ast.SelectStmt:
+			ast.Inspect(n, func(c ast.Node) bool {
+				if c == n {
+					return true
+				}
+				switch c.(type) {
+				case *ast.CaseClause, *ast.CommClause, *ast.BlockStmt:
+					for _, ch := range childStmts(c) {
+						walk(ch, false)
+					}
+					return false
+				}
+				return true
+			})
+			return
+		}
+		for _, ch := range childStmts(n) {
+			walk(ch, breakable)
+		}
+	}
+	for _, st := range body.List {
+		walk(st, true)
+	}
+	return out
+}
+
+// walkNested: inside a nested loop only return/goto/labelled branches leave the outer loop
+func walkNested(body *ast.BlockStmt, out *[]ast.Stmt, before token.Pos) {
+	ast.Inspect(body, func(n ast.Node) bool {
+		switch s := n.(type) {
+		case *ast.FuncLit:
+			return false
+		case *ast.ReturnStmt:
+			*out = append(*out, s)
+		case *ast.BranchStmt:
+			if s.Tok == token.GOTO || s.Label != nil {
+				*out = append(*out, s)
+			}
+		}
+		return true
+	})
+}
+
+// childStmts: the statements directly nested in a statement or clause
+func childStmts(n ast.Node) []ast.Node {
+	var out []ast.Node
+	add := func(l []ast.Stmt) {
+		for _, s := range l {
+			out = append(out, s)
+		}
+	}
+	switch s := n.(type) {
+	case *ast.BlockStmt:
+		add(s.List)
+	case *ast.IfStmt:
+		out = append(out, s.Body)
+		if s.Else != nil {
+			out = append(out, s.Else)
+		}
+	case *ast.CaseClause:
+		add(s.Body)
+	case *ast.CommClause:
+		add(s.Body)
+	case *ast.LabeledStmt:
+		out = append(out, s.Stmt)
+	}
+	return out
+}
+
+// condLit is one conjunct of a structured path condition: Expr holds (Pos) or does not hold (!Pos) on the path.
+type condLit struct {
+	Expr ast.Expr
+	Pos  bool
+	If   *ast.IfStmt
+}
+
+// blockExits: the block's last statement leaves the enclosing block unconditionally (return, continue, break, goto, panic)
+func blockExits(b *ast.BlockStmt) bool {
+	if b == nil || len(b.List) == 0 {
+		return false
+	}
+	switch s := b.List[len(b.List)-1].(type) {
+	case *ast.ReturnStmt, *ast.BranchStmt:
+		return true
+	case *ast.ExprStmt:
+		if c, ok := s.X.(*ast.CallExpr); ok {
+			if id, ok := c.Fun.(*ast.Ident); ok && id.Name == "panic" {
+				return true
+			}
+		}
+	case *ast.IfStmt:
+		if eb, ok := s.Else.(*ast.BlockStmt); ok {
+			return blockExits(s.Body) && blockExits(eb)
+		}
+	}
+	return false
+}
+
+// pathConds gives the structured condition under which `target` (a statement nested in block through if/else only) runs,
+// counted from the top of block: (cond, true) for every enclosing if-body, (cond, false) for every enclosing else and for
+// every earlier `if cond { …; exit }` of a block on the way; (cond, true) for an earlier `if cond {…} else { …; exit }`.
+// ok is false when the nesting goes through anything else (loops, switches, literals).
+func pathConds(block *ast.BlockStmt, target ast.Node) (conds []condLit, ok bool) {
+	inside := func(n ast.Node) bool { return n != nil && n.Pos() <= target.Pos() && target.End() <= n.End() }
+	if !inside(block) {
+		return nil, false
+	}
+	for _, st := range block.List {
+		if !inside(st) {
+			if is, isIf := st.(*ast.IfStmt); isIf && st.End() <= target.Pos() {
+				eb, hasElseBlock := is.Else.(*ast.BlockStmt)
+				switch {
+				case is.Else == nil && blockExits(is.Body):
+					conds = append(conds, condLit{is.Cond, false, is})
+				case hasElseBlock && blockExits(eb) && !blockExits(is.Body):
+					conds = append(conds, condLit{is.Cond, true, is})
+				case hasElseBlock && blockExits(is.Body) && !blockExits(eb):
+					conds = append(conds, condLit{is.Cond, false, is})
+				}
+			}
+			continue
+		}
+		if st == target {
+			return conds, true
+		}
+		switch s := st.(type) {
+		case *ast.BlockStmt:
+			c, ok := pathConds(s, target)
+			return append(conds, c...), ok
+		case *ast.LabeledStmt:
+			if s.Stmt == target {
+				return conds, true
+			}
+			return nil, false
+		case *ast.IfStmt:
+			for cur := s; cur != nil; {
+				if inside(cur.Body) {
+					c, ok := pathConds(cur.Body, target)
+					return append(append(conds, condLit{cur.Cond, true, cur}), c...), ok
+				}
+				conds = append(conds, condLit{cur.Cond, false, cur})
+				switch e := cur.Else.(type) {
+				case *ast.BlockStmt:
+					if inside(e) {
+						c, ok := pathConds(e, target)
+						return append(conds, c...), ok
+					}
+					return nil, false
+				case *ast.IfStmt:
+					cur = e
+				default:
+					return nil, false
+				}
+			}
+			return nil, false
+		default:
+			return nil, false
+		}
+	}
+	return nil, false
+}
+
+// expandPredicate: when cond is a call of a declared function of the program whose body is a single `return <expr>` (a
+// named predicate extracted from a condition), the callee and that expression — to be interpreted in the callee, whose
+// parameters stand for the arguments; otherwise fn and cond unchanged. Followed at most twice.
+func (p *Prog) expandPredicate(fn *FuncNode, cond ast.Expr) (*FuncNode, ast.Expr) {
+	for i := 0; i < 2; i++ {
+		c, ok := unparen(cond).(*ast.CallExpr)
+		if !ok {
+			break
+		}
+		callee := fn.Callee(c)
+		if callee == nil {
+			break
+		}
+		t := p.ByObj[callee]
+		if t == nil || t.Body == nil || len(t.Body.List) != 1 {
+			break
+		}
+		rt, ok := t.Body.List[0].(*ast.ReturnStmt)
+		if !ok || len(rt.Results) != 1 {
+			break
+		}
+		fn, cond = t, rt.Results[0]
+	}
+	return fn, cond
+}
+
+// forEachCondBranch calls f for every conditional branch under root: the then-branch of each if statement and each
+// single-condition case of a tagless switch (the two ways the code base writes a chain of alternatives).
+func forEachCondBranch(root ast.Node, f func(cond ast.Expr, body []ast.Stmt, at ast.Node)) {
+	ast.Inspect(root, func(n ast.Node) bool {
+		switch x := n.(type) {
+		case *ast.IfStmt:
+			f(x.Cond, x.Body.List, x)
+		case *ast.SwitchStmt:
+			if x.Tag == nil {
+				for _, c := range x.Body.List {
+					if cc, ok := c.(*ast.CaseClause); ok && len(cc.List) == 1 {
+						f(cc.List[0], cc.Body, cc)
+					}
+				}
+			}
+		}
+		return true
+	})
+}
